@@ -1,6 +1,6 @@
 import json
 import hv
-from hv import runner, gen, e1, e3
+from hv import runner, gen, e1, e3, e2b
 from hv.props import _common
 
 PID = 'C06'
@@ -9,7 +9,8 @@ PID = 'C06'
 def run(tier):
     run = runner.Run(PID, tier, 'model_checking',
                      'E1: BFS over all register/meet/drain histories of the real DependencyTracker up to the depth bound '
-                     '(states = distinct tracker+generator states x bookkeeping); E2a: generated programs x environments '
+                     '(states = distinct tracker+generator states x bookkeeping); E2b: state graph of Solver.solve() under an adversarial '
+                     'nondeterministic line and prompt (all rank permutations); E2a: generated programs x environments '
                      'x rank permutations on the real Solver with work counters; distinct = outcome classes / tracker states')
     depth = 7 if tier == 'quick' else 10
     r = e1.explore(depth, pmap=lambda f, xs: runner.pmap(f, xs))
@@ -30,6 +31,7 @@ def run(tier):
             run.outcome(('e1', k))
     for hist, err in r['violations']:
         run.violation(f'C06|e1|{err[:60]}', dict(engine='e1', history=[list(o) for o in hist]), err)
+    e2b.explore_into(run, tier, None, PID)
     gen.explore(run, PID, tier)
     e3.explore_all(run, PID, tier)
     return run.finish()
@@ -39,6 +41,9 @@ def replay(case):
     if case.get('engine') == 'e1':
         impl, model, err = e1.build([tuple(o) for o in case['history']])
         return (err is None), (err or 'history passes')
+    if case.get('engine') == 'e2b':
+        out, errs = e2b.replay(e2b.UNIVERSES[case['universe']], case['script'], case['order'])
+        return (not errs), (str(errs[:1]) if errs else f'passes ({out})')
     if case.get('engine') == 'e3':
         return _common.e3_replay(PID, case)
     return _common.gen_replay(PID)(case)
